@@ -3,7 +3,8 @@ CONSTANTS NPts = 8
           NSlots = 4
           StitchCfg <- StitchBig
 INIT Init
-NEXT Eval
+NEXT Next
+PROPERTY ArgsFrame
 INVARIANT SliceSub
 INVARIANT Unbounded
 INVARIANT OneSided
